@@ -42,7 +42,11 @@ RULE = ("same 11 item types and history shapes as C01 with set:modify:ask:bound 
         "argument is the rightmost extremum - and a few on the id, Min / Max over the two zeros of f64, Sum over strings, "
         "Combinator<Concat, Concat>, Combinator<Min, Combinator<Max, Sum>>, Combinator<Flip, Sum>), the ties family, large trees "
         "(n up to 4097; searches from the ends up to n = 257), and one search in six first run with a predicate that panics on "
-        "its 1st-6th call (caught) and then repeated, followed by a query or debug()")
+        "its 1st-6th call (caught) and then repeated, followed by a query or debug(); plus the width family of C01 (h), "
+        "search-heavy: lower_bound / lower_bound_rev of every built-in item over every primitive element type (i8 ... u128, isize, "
+        "usize, f32, f64) - the searches start from the item's Default, i.e. from MinMax::{MIN, MAX} / Default of the element type as "
+        "rlib_num_traits defines them for that type - on the fixed item x type grid and on random histories (tiny values for the "
+        "8-bit types, 2^64..2^100 on i128 / u128), all checked against the Coq term of the i64 kind")
 TRUSTED = base.TRUSTED
 ASSUMPTIONS = base.ASSUMPTIONS + ["for the element type Keyed the identity law of Default fails on elements whose key equals i64::MAX / MIN (the id "
                                   "differs): such keys are not generated, so no search falls into the vacuous branch of spec_check",
@@ -62,7 +66,9 @@ def generate(rng, tier):
     count, nflip, ntag, nnew, nties = (1200, 180, 120, 240, 110) if tier == "quick" else (30000, 5000, 3000, 9000, 4000)
     r1, r2, r3 = rng.fork("hist"), rng.fork("flip"), rng.fork("tagged")
     r4, r5, r6 = rng.fork("newkinds"), rng.fork("ties"), rng.fork("big")
-    return base.interleave([[base.gen_history(r1, tier, (1, 3, 1, 5), 45, base.KINDS, 6) for _ in range(count)],
+    r7 = rng.fork("width")
+    return base.interleave([base.width_grid(), base.width_cases(r7, tier, 120 if tier == "quick" else 3000, (1, 3, 1, 5), 6),
+                            [base.gen_history(r1, tier, (1, 3, 1, 5), 45, base.KINDS, 6) for _ in range(count)],
                             [base.gen_flip(r2, tier, 8) for _ in range(nflip)],
                             [base.gen_tagged(r3, tier, 7) for _ in range(ntag)],
                             [base.gen_history(r4, tier, (1, 3, 1, 5), 35, base.NEW_KINDS, 6) for _ in range(nnew)],
@@ -95,7 +101,9 @@ MANIFEST = {
             "commutativity, no monotonicity needed), c02_model_check_spec_check.  Every run compares the real lower_bound / "
             "lower_bound_rev (results and the exact list of closure arguments) with the model and with the plain-array "
             "specification on search-heavy histories for 21 item types (one of them lazy with the zero-sized modifier type (), ten "
-            "where tied or non-commuting operands are distinguishable), including searches repeated after the predicate panicked "
+            "where tied or non-commuting operands are distinguishable) and for every built-in item over each of the 14 primitive "
+            "number types rlib_num_traits supports (same Coq terms as the i64 kinds; the searches start from the Default the item "
+            "derives from that crate's constants for the type), including searches repeated after the predicate panicked "
             "in the middle of a first attempt.",
     "level_note": "Trusted: Coq kernel + vm_compute; the Rust executor and the Python printer/parsers; Z for i64; sampled "
                   "correspondence; searches with non-monotone predicates are compared with the model only; positions >= n are "
